@@ -10,6 +10,7 @@ pub const PYTH_OWNER: Pubkey = solana_sdk::pubkey!("rec5EKMGg6MxZYaMdyBfgwp4d5rB
 pub const SWB_OWNER: Pubkey = solana_sdk::pubkey!("SBondMDrcV3K4kxZR1HNVT7osZxAHVHgYXL5Ze1oMUv");
 pub const KAMINO: Pubkey = solana_sdk::pubkey!("KLend2g3cP87fffoy8q1mQqGKjrxjC8boSyAYavgmjD");
 pub const SOLEND: Pubkey = solana_sdk::pubkey!("So1endDq2YkqhipRh3WViPa8hdiSpxWy6z3Z6tMCpAo");
+pub const DRIFT: Pubkey = solana_sdk::pubkey!("dRiftyHA39MWEi3m9aunc5MzRF1JYuBsbn6VPcn33UH");
 /// slot the reference model judges venue staleness against (set by the driver from the Clock it wrote)
 pub static REF_SLOT: std::sync::atomic::AtomicU64 = std::sync::atomic::AtomicU64::new(0);
 /// diagnostic switch: value everything at the reported price (used to attribute an acceptance to
@@ -529,6 +530,45 @@ pub fn ref_price(b: &Bank, ors: &[OracleIn], now: i64) -> Result<RefPx, PxErr> {
             };
             let liq_bits = (BigInt::from(u64_at(std::mem::offset_of!(R, liquidity_available_amount))) << 48usize) + d2b(std::mem::offset_of!(R, liquidity_borrowed_amount_wads)) - d2b(std::mem::offset_of!(R, liquidity_accumulated_protocol_fees_wads));
             venue_px(&ors[0], cfg, now, max_age(false), &max_conf, liq, col, dec, liq_bits)
+        }
+        OracleSetup::DriftPythPull => {
+            use drift_mocks::state::MinimalSpotMarket as M;
+            if ors.len() != 2 {
+                return Err(PxErr::WrongCount);
+            }
+            if ors[1].key != cfg.oracle_keys[1] {
+                return Err(PxErr::WrongKey);
+            }
+            let n = std::mem::size_of::<M>();
+            let d = ors[1].data;
+            if ors[1].owner != DRIFT || d.len() < 8 + n || d[..8] != drift_mocks::state::SPOT_MARKET_DISCRIMINATOR {
+                return Err(PxErr::BadData);
+            }
+            let ts = u64::from_le_bytes(d[8 + std::mem::offset_of!(M, last_interest_ts)..8 + std::mem::offset_of!(M, last_interest_ts) + 8].try_into().unwrap());
+            // interest not brought up to date in the current second: stale
+            if (ts as i128) < now as i128 {
+                return Err(PxErr::Stale);
+            }
+            let o = std::mem::offset_of!(M, cumulative_deposit_interest);
+            let cum = u128::from_le_bytes(d[8 + o..8 + o + 16].try_into().unwrap());
+            // fail-closed boundaries of the integer adjustment (raw * cum / 1e10 in u128, back to i64 / u64)
+            if let Some((_, price, conf, _, _, ema, ema_conf)) = pyth_decode(ors[0].data) {
+                use num_bigint::BigInt;
+                if price < 0 || ema < 0 {
+                    return Err(PxErr::Unsupported);
+                }
+                let fits = |raw: u128, lim_bits: usize| -> bool {
+                    let prod = BigInt::from(raw) * BigInt::from(cum);
+                    prod < (BigInt::from(1) << 128usize) && prod / BigInt::from(10_000_000_000u64) < (BigInt::from(1) << lim_bits)
+                };
+                if !fits(price as u128, 63) || !fits(ema as u128, 63) || !fits(conf as u128, 64) || !fits(ema_conf as u128, 64) {
+                    return Err(PxErr::Unsupported);
+                }
+            }
+            let num = ru(cum);
+            let den = ru(10_000_000_000);
+            // integer truncation of each adjusted field only (the rate itself is exact)
+            pyth_px_x(&ors[0], &cfg.oracle_keys[0], now, max_age(false), &max_conf, Some((&num, &den)), true, &zero())
         }
         _ => Err(PxErr::Unsupported),
     }
